@@ -908,7 +908,7 @@ def run(chk):
     chk.extra["max_drift_us"] = round(drift * 1e6, 3)
     run_shared(chk, drv)
     check_refs(chk, drv)
-    c18_proc.run_proc(chk)
+    c18_proc.run_proc(chk, drv)
     # nanosecond resolution: enforced once registered in known_findings.json (status known -> KNOWN-FINDING, fixed -> must hold)
     ns = ns_probe()
     chk.count("ns.probe", 2)
